@@ -321,6 +321,10 @@ class World:
 
             async def close(self):
                 world.rec('tr', ep=name, what='close')
+                if side == 'client':
+                    # the transport as built from a url owns its websocket and closes it first (session / ws context exit);
+                    # a websocket handed in from outside is closed by whoever owns it - here, at the same moment
+                    await ws.close()
                 await super().close()
 
         if side == 'client':
